@@ -18,6 +18,9 @@ func TestSmokeC(t *testing.T) {
 	t0 := time.Now()
 	steps, inc, lin := 0, 0, 0
 	for i := 0; i < n; i++ {
+		if os.Getenv("SEEDLOG") != "" {
+			fmt.Println("seed", base+i)
+		}
 		plan := Gen("C20", "quick", uint64(base+i))
 		res := Execute(plan, nil, false)
 		steps += res.Steps
